@@ -300,27 +300,15 @@ func c17Envelope(c *Ctx) {
 		ci.require(c, rule, "no matching recipient is an error", `re:eq\(.*EncryptedKey,const:nil:\[\]byte\)`, false, spec, nil, "")
 	}
 	if f := c.Fn("x509", "isCertMatchForIssuerAndSerial"); f != nil {
-		be := newBigEnv(f, paramNames(f, "cert", "ias"))
-		for _, b := range f.Blocks {
-			_ = b
-		}
-		// both serial and issuer compared: the function returns true only if both hold
-		n := 0
-		for _, s := range condList(f, be) {
-			dbg("isCertMatch cond: %s", s)
-			if strings.Contains(s, "cmp(cert.SerialNumber,ias.SerialNumber)") {
-				n++
-			}
-		}
-		okIssuer := false
-		instrsOf(f, func(_ *ssa.BasicBlock, in ssa.Instruction) {
-			if call, ok := in.(*ssa.Call); ok && calleeID(&call.Call) == "bytes.Compare" {
-				s := be.bytesOf(call.Call.Args[0], call).String() + be.bytesOf(call.Call.Args[1], call).String()
-				dbg("isCertMatch compare: %s", s)
-				okIssuer = strings.Contains(s, "cert.RawIssuer") && strings.Contains(s, "IssuerName.FullBytes")
-			}
-		})
-		c.Check(n >= 1 && okIssuer, rule, fname(f), "recipient/signer matched by serial number and raw issuer", "", "certificate matching does not compare both the serial number and the raw issuer name", f.Pos())
+		// decided on values: the result can be true neither when the serial numbers differ nor when the raw issuer
+		// names differ — whichever way the two comparisons are written and combined
+		ci := newCondIndex(f, paramNames(f, "cert", "ias"))
+		spec := resultSpec{0, "bool"}
+		serial := `re:eq\(cmp\((cert\.SerialNumber,ias\.SerialNumber|ias\.SerialNumber,cert\.SerialNumber)\),0x0\)`
+		issuerArgs := `(cert\.RawIssuer,ias\.IssuerName\.FullBytes|ias\.IssuerName\.FullBytes,cert\.RawIssuer)`
+		issuer := `re:(eq\(call:bytes\.Compare\(` + issuerArgs + `\),0x0\)|call:bytes\.Equal\(` + issuerArgs + `\))`
+		ci.requireAssume(c, rule, "no match when the serial numbers differ", []assumption{{serial, false}}, spec, nil, "certificate matching must compare the serial number")
+		ci.requireAssume(c, rule, "no match when the raw issuer names differ", []assumption{{issuer, false}}, spec, nil, "certificate matching must compare the raw issuer name")
 	}
 	if f := c.Fn("x509", "encryptKeySM2"); f != nil {
 		be := newBigEnv(f, paramNames(f, "key", "recipient", "mode"))
